@@ -173,9 +173,6 @@ class Built:
             if fp is not None:
                 fp.tick("get_context_data", cname)
             d = dict(data)
-            for target in pyrender:
-                # a nested root render in the middle of the enclosing render
-                d["py_" + target] = built.classes[target].render(render_dependencies=False)
             for kk, vv in kwargs.items():
                 d["k_" + kk] = vv
             d["cid"] = self.id
@@ -187,6 +184,9 @@ class Built:
                     d["inj_" + key] = v
                 else:
                     d["inj_" + key] = "/".join(f"{a}:{b}" for a, b in sorted(v._asdict().items()))
+            for target in pyrender:
+                # a nested root render in the middle of the enclosing render
+                d["py_" + target] = built.classes[target].render(render_dependencies=False)
             return d
 
         return get_context_data
@@ -222,9 +222,11 @@ class Built:
 # =======================================================================================
 # generator
 class ProgGen:
-    def __init__(self, rng, flavour="slots", nclasses=None, size=None):
+    def __init__(self, rng, flavour="slots", nclasses=None, size=None, pyrender=None):
         self.rng = rng
         self.flavour = flavour  # "slots" | "scope" | "provide" | "roots"
+        # classes may call OtherClass.render() inside get_context_data() and print the HTML
+        self.pyrender = flavour in ("roots", "faults") if pyrender is None else pyrender
         self.ncls = nclasses or rng.randint(2, 5)
         self.size = size or rng.choice([6, 10, 16, 24])
         self.tok = 0
@@ -277,7 +279,7 @@ class ProgGen:
                         spec["inject"].append([key, f"DEF-{key}" if rng.random() < 0.9 else None])
             budget = [rng.randint(2, max(3, self.size // 2))]
             body = self.gen_nodes(budget, depth=0, in_comp=True, in_fill=False, allowed=allowed, loops=[], top=True)
-            if self.flavour in ("roots", "faults") and allowed and rng.random() < 0.25:
+            if self.pyrender and allowed and rng.random() < 0.25:
                 # get_context_data() renders another class from Python (a component tree of its own, started and
                 # finished in the middle of the enclosing render) and the template prints that HTML once
                 target = rng.choice(allowed)
